@@ -146,7 +146,14 @@ func TestRtpfbReports(t *testing.T) {
 					}
 					note(idx, ok, m)
 				}
-				pkts = append(pkts, kit.EncodeTWCC(t, spec, 0))
+				// a final run-length chunk may run past the status count (with receive deltas for the declared statuses only):
+				// what lies beyond the count is not declared
+				overshoot := 0
+				if rapid.IntRange(0, 3).Draw(t, "overshoot") == 0 {
+					overshoot = rapid.IntRange(1, 20).Draw(t, "overshootBy")
+					spec.OvershootAnySymbol = true
+				}
+				pkts = append(pkts, kit.EncodeTWCC(t, spec, overshoot))
 				h.U(2, uint64(base)).I(count)
 			} else {
 				now := time.Now()
